@@ -89,7 +89,16 @@ func RunCases(prelude string, assumes []*Term, goals []CaseGoal, insts []CaseIns
 	}
 	phase1 := append([]CaseInst(nil), closed...)
 	candOf := map[string]string{} // candidate label -> original label
-	for _, in := range open {
+	// candidates are tried for at most 400 open instances (evenly spaced): enough to find a concrete
+	// witness when the dependence on open bits is systematic; the others go to the symbolic phase
+	stride := 1
+	if len(open) > 400 {
+		stride = (len(open) + 399) / 400
+	}
+	for oi, in := range open {
+		if oi%stride != 0 {
+			continue
+		}
 		for _, c := range candidateInsts(in) {
 			candOf[c.Label] = in.Label
 			phase1 = append(phase1, c)
